@@ -8,7 +8,8 @@
 (*   resp  : what the server answers - "success" (with the payload the     *)
 (*           operation defines), "failed" (Operation Failed with a reason  *)
 (*           and message), "failed_noop" (the same without the Operation   *)
-(*           field, as servers answer request-level errors), "undone"      *)
+(*           field, as servers answer request-level errors),               *)
+(*           "failed_nomsg" (a failure without Result Message), "undone"   *)
 (*           (Operation Undone with reason and                             *)
 (*           message), "nobatch" (no batch item), "wrongop" (a successful  *)
 (*           item of another operation), "garbage" (a frame whose body is  *)
@@ -25,8 +26,12 @@ EXTENDS Naturals, Sequences, FiniteSets, TLC, Json
 Ops == {"create", "create_key_pair", "register", "derive_key", "locate", "get", "get_attributes", "get_attribute_list",
         "activate", "revoke", "destroy", "encrypt", "decrypt", "sign", "signature_verify", "mac",
         "delete_attribute", "set_attribute", "modify_attribute", "check", "rekey",
-        "get_wrapped"}        \* Get of a key that comes back wrapped: every sub-field of the key wrapping data is data of the response
-Resps == {"success", "failed", "failed_noop", "undone", "nobatch", "wrongop", "garbage", "empty"}
+        "get_wrapped",        \* Get of a key that comes back wrapped: every sub-field of the key wrapping data is data of the response
+        "get_wrapped_nocp",   \* ... whose key information names the keys only (the cryptographic parameters are optional there)
+        "encrypt_gcm",        \* Encrypt in an authenticated mode: the authentication tag is data of the response
+        "discover_versions", "query"}      \* KMIPProxy-level operations: the result object carries status / reason / message
+\* "failed_nomsg": Operation Failed with a reason and NO Result Message (the message is optional in the protocol)
+Resps == {"success", "failed", "failed_noop", "failed_nomsg", "undone", "nobatch", "wrongop", "garbage", "empty"}
 Chunks == {"whole", "split_header", "bytewise", "eof_in_header", "eof_in_body"}
 Reasons == {"ITEM_NOT_FOUND", "PERMISSION_DENIED", "GENERAL_FAILURE", "CRYPTOGRAPHIC_FAILURE", "INVALID_FIELD"}
 
@@ -35,7 +40,7 @@ Intact(chunk) == chunk \in {"whole", "split_header", "bytewise"}
 Outcome(row) ==
     IF ~Intact(row.chunk) THEN "raises"
     ELSE CASE row.resp = "success" -> "returns"
-           [] row.resp \in {"failed", "failed_noop", "undone"} -> "op_failure"
+           [] row.resp \in {"failed", "failed_noop", "failed_nomsg", "undone"} -> "op_failure"
            [] OTHER -> "raises"
 
 \* o = observed [kind, dataok, status, reason, message]; want = the response's status / reason / message
@@ -46,7 +51,7 @@ C19(row, o) ==
 
 Rows == [op : Ops, resp : Resps, chunk : Chunks, reason : Reasons]
 VARIABLE row
-Init == row \in {r \in Rows : r.resp \in {"failed", "failed_noop", "undone"} \/ r.reason = "ITEM_NOT_FOUND"}
+Init == row \in {r \in Rows : r.resp \in {"failed", "failed_noop", "failed_nomsg", "undone"} \/ r.reason = "ITEM_NOT_FOUND"}
 Next == UNCHANGED row
 Spec == Init /\ [][Next]_row
 Emit == PrintT("@ROW@" \o ToJson([row |-> row, outcome |-> Outcome(row)]))
